@@ -67,8 +67,12 @@ def restricted(body):
         parent, children = model_from_pv(pv)
         nodes = build(pv, N)
         s = nondet_int(0, n - 1, "start") if cfg.get("starts", True) else 0
-        use_ml = nondet_bool("maxlevel_given")
-        maxlevel = nondet_sym(int, "maxlevel") if use_ml else None
+        if cfg.get("concrete_maxlevel"):
+            ml = nondet_int(-2, n + 1, "maxlevel")  # -2 stands for None; -1..n+1 concrete (fast mode, no tracing of the real code)
+            maxlevel = None if ml == -2 else ml
+        else:
+            use_ml = nondet_bool("maxlevel_given")
+            maxlevel = nondet_sym(int, "maxlevel") if use_ml else None
         stopm = {}
         filtm = {}
 
@@ -84,8 +88,15 @@ def restricted(body):
 
         stop = lambda node: stopi(node.i)
         filt = lambda node: filti(node.i)
+        if cfg.get("no_filter"):
+            filt = None
+            filti = lambda i: True
         before = real_map(nodes)
-        got = list(ITERS[which](nodes[s], filter_=filt, stop=stop, maxlevel=maxlevel))
+        if cfg.get("concrete_maxlevel"):
+            with concrete_region():
+                got = list(ITERS[which](nodes[s], filter_=filt, stop=stop, maxlevel=maxlevel))
+        else:
+            got = list(ITERS[which](nodes[s], filter_=filt, stop=stop, maxlevel=maxlevel))
         # ---- oracle
         adm = _admitted(children, s, stopi, maxlevel)
         if which == "pre":
